@@ -17,7 +17,8 @@ const (
 	spinBound = 40_000_000
 )
 
-// effectiveRandBit is the documented clamping of NewIdGenerator.
+// effectiveRandBit is the documented clamping of NewIdGenerator (used for the
+// witness log and the coverage counters only; the verdict uses widthRange).
 func effectiveRandBit(rb int) int {
 	if rb <= 1 {
 		return 16
@@ -26,6 +27,37 @@ func effectiveRandBit(rb int) int {
 		return 22
 	}
 	return rb
+}
+
+// widthRange is the set of widths of the random part the statement allows for a
+// randBit setting: exactly randBit inside 2..22; outside that range the statement
+// gives no width of its own (the layout has 2..22 random bits), so any width
+// 2..22 is accepted.
+func widthRange(rb int) (lo, hi int) {
+	if rb >= 2 && rb <= 22 {
+		return rb, rb
+	}
+	return 2, 22
+}
+
+// timeFieldWidth returns a width w in lo..hi such that what v carries above its
+// low w bits is congruent mod 2^41 to a millisecond reading t with b <= t <= a,
+// or -1 if there is none.
+func timeFieldWidth(v, b, a int64, lo, hi int) int {
+	for w := lo; w <= hi; w++ {
+		upper := v >> uint(w)
+		if b+((upper-b)&timeMask) <= a {
+			return w
+		}
+	}
+	return -1
+}
+
+func widthText(lo, hi int) string {
+	if lo == hi {
+		return fmt.Sprintf("its %d random bits", lo)
+	}
+	return fmt.Sprintf("a random part of any width %d..%d (randBit is outside 2..22)", lo, hi)
 }
 
 type idObs struct {
@@ -104,7 +136,9 @@ func idCase(c *ev.Case) {
 		}
 	} else {
 		c.Add("id_randbit_in_range", 1)
+		c.Add(fmt.Sprintf("id_cases_randbit_%02d", rb), 1)
 	}
+	wlo, whi := widthRange(rb)
 
 	// ---- run
 	off := time.Duration(offMs)*time.Millisecond + time.Duration(offNs)
@@ -151,10 +185,8 @@ func idCase(c *ev.Case) {
 		}
 		// time field (everything above the random bits) must be congruent mod 2^41 to a
 		// millisecond reading t with before <= t <= after
-		upper := v >> uint(e)
-		cand := b + ((upper - b) & timeMask)
-		if cand > a {
-			c.Failf("id-time-field", "NewIdGenerator(now-%dms, randBit=%d): Generate() = %d carries %d above its %d random bits, but the elapsed milliseconds were %d just before and %d just after the call (mod 2^41: %d..%d)", offMs, rb, v, upper, e, b, a, b&timeMask, a&timeMask)
+		if timeFieldWidth(v, b, a, wlo, whi) < 0 {
+			c.Failf("id-time-field", "NewIdGenerator(now-%dms, randBit=%d): Generate() = %d (binary %b) does not carry the elapsed milliseconds above %s: they were %d just before and %d just after the call (mod 2^41: %d..%d)", offMs, rb, v, v, widthText(wlo, whi), b, a, b&timeMask, a&timeMask)
 			return
 		}
 		c.Add("id_sandwiches_checked", 1)
